@@ -71,6 +71,7 @@ func H_C33_defaults() {
 	symAssert(d.Ddec != nil && *d.Ddec == 2.5, "ddec: decimal64 default 2.50")
 	symAssert((d.Nodef != nil) == nodef, "a leaf without default must not be touched")
 	symAssert(d.Dun == UnionUint8(1), "union default 1 must be the uint8 member value 1")
+	symAssert(d.Dus == UnionString("x:y"), "union (enumeration | string) default \"x:y\" must be the string member value x:y")
 	if e := d.Dl["k"]; e != nil {
 		if dv != nil {
 			symAssert(e.Dv == dv, "set leaf of a list entry kept")
